@@ -13,7 +13,7 @@ from .. import core
 from .. import binslib as bl
 
 ACTIONS = ("FillInside", "FillUnderflow", "FillOverflow", "StartCompute", "ComputeNext", "ComputeStop",
-           "IterNext", "IterEnd")
+           "IterNext", "Mutate", "IterEnd")
 
 
 def lists(x):
@@ -119,11 +119,39 @@ def check_iter(rec, out, edges, dim, worst, size, variant):
     if dim == 2 and variant % 2 == 1:
         # one Variable for two coordinates has one name only: edges are rendered by the caller
         kw["create_edges_str"] = lambda cell_edges, var_context=None: repr(cell_edges)
+    pristine = copy.deepcopy(context)
+    got, npulled = [], 0
     try:
-        got = list(ls.IterateBins(**kw).run(iter([5, (hist, context), marker])))
+        # the consumer of the specification: pull one cell, write into its context.bins, pull the next
+        for x in ls.IterateBins(**kw).run(iter([5, (hist, context), marker])):
+            got.append(x)
+            if isinstance(x, tuple) and len(x) == 2 and isinstance(x[1], dict) and isinstance(x[1].get("bins"), dict) \
+                    and x is not marker:
+                npulled += 1
+                if x[1]["bins"] != pristine:
+                    worst.add("IterateBins: context.bins of a cell is not the histogram's context (a consumer's write "
+                              "into an earlier cell shows up)", size, dict(base, position=npulled, expected=repr(pristine),
+                                                                        observed=repr(x[1]["bins"])))
+                x[1]["bins"]["touched"] = npulled
+                x[1]["bins"].setdefault("variable", {})["touched"] = npulled
     except Exception as exc:   # noqa
         worst.add("IterateBins raised %s" % type(exc).__name__, size, dict(base, exception=repr(exc)))
         return
+    if context != pristine:
+        worst.add("IterateBins: a consumer's write into a cell's context.bins changes the histogram's context", size,
+                  dict(base, expected=repr(pristine), observed=repr(context)))
+    # no two yielded contexts share a mutable object, none shares one with the histogram's context
+    from ..util import reach_ids
+    owners = [("histogram context", set(reach_ids(context)))]
+    for n, x in enumerate(got):
+        if isinstance(x, tuple) and len(x) == 2 and isinstance(x[1], dict) and x is not marker:
+            mine = set(reach_ids(x[1]))
+            for name, other in owners:
+                if mine & other:
+                    worst.add("IterateBins: two yielded contexts (or one and the histogram's) share a mutable object", size,
+                              dict(base, position=n, shares_with=name))
+                    break
+            owners.append(("cell %d" % n, mine))
     if not got or got[0] != 5 or got[-1] is not marker:
         worst.add("IterateBins changes values that are not histograms", size, dict(base, observed=repr(got)[:300]))
         return
@@ -157,7 +185,7 @@ def check_maps(rec, out, edges, dim, worst, size):
     import lena.structures as ls
     if not out:
         return
-    for m in ("tag", "dup", "drop", "seen"):
+    for m in ("tag", "dup", "drop", "seen", "src"):
         exp = rec["maps"][m]
         for drop_ctx in (True, False):
             base = {"scenario": bl.scen_text(rec), "where": "MapBins(%s, drop_bins_context=%s)" % (m, drop_ctx)}
